@@ -231,6 +231,11 @@ def main(argv=None):
             known_hits.append((kf, o))
             continue
         in_base = baseline is not None and o["name"] in baseline
+        if o.get("structural"):
+            # an obligation about the shape of the proof (slice/frame of the code), not about behaviour: its failure
+            # leaves the property undecided; only a behavioural obligation with a failing input is a violation
+            undecided.append(o)
+            continue
         if o.get("replay_confirmed"):
             confirmed = True
         if confirmed or in_base:
